@@ -557,6 +557,11 @@ def tt_cp_apr_pdnr(  # noqa: PLR0912,PLR0913,PLR0915
 
                 else:
                     x_row = X_mat[jj, :]
+                    if not np.any(x_row):
+                        # The row jj of matricized tensor X in mode n is empty:
+                        # same treatment as in the sparse case
+                        M.factor_matrices[n][jj, :] = 0
+                        continue
 
                 # Get current values of the row subproblem variables.
                 m_row = M.factor_matrices[n][jj, :]
@@ -911,6 +916,11 @@ def tt_cp_apr_pqnr(  # noqa: PLR0912,PLR0913,PLR0915
 
                 else:
                     x_row = X_mat[jj, :]
+                    if not np.any(x_row):
+                        # The row jj of matricized tensor X in mode n is empty:
+                        # same treatment as in the sparse case
+                        M.factor_matrices[n][jj, :] = 0
+                        continue
 
                 # Get current values of the row subproblem variables.
                 m_row = M.factor_matrices[n][jj, :]
